@@ -9,6 +9,7 @@ import (
 	"sort"
 	"sync"
 	"sync/atomic"
+	"syscall"
 	"time"
 )
 
@@ -197,16 +198,31 @@ type wdCase struct {
 
 var (
 	wdStart atomic.Int64 // unix nanos of the start of the running case; 0 = none
+	wdCPU   atomic.Int64 // CPU time of the process (nanos) at the start of the case
 	wdCur   atomic.Value // wdCase
 )
 
+// cpuNanos is the CPU time (user+system) the process has used so far.
+func cpuNanos() int64 {
+	var ru syscall.Rusage
+	if err := syscall.Getrusage(syscall.RUSAGE_SELF, &ru); err != nil {
+		return 0
+	}
+	return ru.Utime.Nano() + ru.Stime.Nano()
+}
+
 func beginCase(prop, sub string, get func() any) {
 	wdCur.Store(wdCase{prop, sub, get})
+	wdCPU.Store(cpuNanos())
 	wdStart.Store(time.Now().UnixNano())
 }
 
 func endCase() { wdStart.Store(0) }
 
+// The watchdog measures the CPU time the process has burnt since the case
+// began, not wall-clock time: a case that is merely starved by a busy machine
+// does not expire, a loop that never ends does. Wall-clock time is a backstop
+// (ten times the limit) for a case that blocks without using the CPU.
 func startWatchdog() {
 	limit := 60 * time.Second
 	if v := os.Getenv("VERIF_WATCHDOG_S"); v != "" {
@@ -223,8 +239,13 @@ func startWatchdog() {
 			if st == 0 {
 				continue
 			}
-			if time.Since(time.Unix(0, st)) < limit {
+			cpu := time.Duration(cpuNanos() - wdCPU.Load())
+			wall := time.Since(time.Unix(0, st))
+			if cpu < limit && wall < 10*limit {
 				continue
+			}
+			if wdStart.Load() != st {
+				continue // another case by now
 			}
 			c, _ := wdCur.Load().(wdCase)
 			var v any
@@ -234,7 +255,7 @@ func startWatchdog() {
 			if dir := os.Getenv("VERIF_FAIL_DIR"); dir != "" {
 				raw, _ := json.Marshal(v)
 				rec := failureRecord{Property: c.prop, Sub: c.sub,
-					Message: fmt.Sprintf("watchdog: case still running after %v", limit),
+					Message: fmt.Sprintf("watchdog: case still running after %v of CPU time (%v wall-clock)", cpu.Round(time.Second), wall.Round(time.Second)),
 					Hang:    true, Case: raw}
 				b, _ := json.MarshalIndent(rec, "", " ")
 				_ = os.WriteFile(filepath.Join(dir, "HANG-"+c.prop+".json"), b, 0o644)
